@@ -31,7 +31,7 @@ class Obligation:
 class Explorer:
     """Drives re-execution; shared across the paths of one function."""
 
-    def __init__(self, feas_timeout_ms=2000, max_paths=4000):
+    def __init__(self, feas_timeout_ms=300, max_paths=4000):
         self.queue = [[]]
         self.feas_timeout_ms = feas_timeout_ms
         self.max_paths = max_paths
